@@ -154,10 +154,10 @@ def mangle(n):
 struct_cnames = {}
 struct_order = []
 def cstruct_name(t):
-    if t.name is not None: return 'struct S_' + mangle(t.name)
+    if t.name is not None: return 'struct S_' + PFX + mangle(t.name)
     key = ('P' if t.packed else 'N') + ','.join(cdecl(f,'') for f in t.fields)
     if key not in ANON:
-        ANON[key] = (t, 'struct A_%d' % len(ANON))
+        ANON[key] = (t, 'struct A_%s%d' % (PFX, len(ANON)))
     return ANON[key][1]
 
 def cint(n):
@@ -222,7 +222,7 @@ def local_name(tok): return 'v_' + mangle(tok[1:])
 LIBC = {'@strcmp', '@strlen', '@memcmp', '@memchr', '@strncmp', '@abort', '@bcmp'}
 def global_name(tok):
     if tok in LIBC: return tok[1:]
-    return 'g_' + mangle(tok[1:])
+    return 'g' + (PFX if PFX else '_') + mangle(tok[1:])
 
 FUNCS = {}    # name -> (TFn, defined)
 GLOBALS = {}  # name -> type (pointee)
@@ -533,7 +533,9 @@ def read_module(path):
     return lines
 
 def main():
+    global PFX
     src = sys.argv[1]
+    if len(sys.argv) > 3 and sys.argv[2] == '--prefix': PFX = sys.argv[3]
     lines = read_module(src)
     out_types = []; out_glob = []; out_init = []; out_proto = []; out_fn = []
     # pass 1: type defs
@@ -636,10 +638,11 @@ def main():
     print('\n'.join(out_types))
     print('\n'.join(out_proto))
     print('\n'.join(out_glob))
-    print('void ll2c_init_globals(void) {\n  ' + '\n  '.join(out_init) + '\n}')
+    print('void ll2c_init_globals%s(void) {\n  ' % (('_' + PFX.strip('_')) if PFX else '') + '\n  '.join(out_init) + '\n}')
     print('\n'.join(out_fn))
 
 LIB_RENAME = {}
+PFX = ''    # --prefix P: all emitted global names become gP<name> (two TUs in one CBMC run: product harnesses)
 import os
 PTR_WORD_COPY = os.environ.get('LL2C_PTRWORD', '1') == '1'
 NEW_MODE = os.environ.get('LL2C_NEW', 'words')
